@@ -177,4 +177,136 @@ theorem liveFeeds_fresh (feeds : List String) :
   | nil => rfl
   | cons f fs ih => simp [live] at ih ⊢; exact ih
 
+/-! ### stalled subscribers (`Full`, `fstep`) -/
+
+theorem stallOp_core (f : Full) (u : Sub) (k : Nat) : (stallOp f u k).core = f.core := by
+  unfold stallOp; cases roomOf f.room u <;> rfl
+
+theorem tableStep_core (f : Full) (c : State) (op : Op) : (tableStep f c op).1.core = c := by
+  unfold tableStep; cases op <;> rfl
+
+theorem roomOf_mem (room : List (Sub × Nat)) (u : Sub) (r : Nat) (h : (u, r) ∈ room) :
+    (roomOf room u).isSome = true := by
+  induction room with
+  | nil => cases h
+  | cons p room ih =>
+    obtain ⟨a, x⟩ := p
+    by_cases ha : a = u
+    · simp [roomOf, ha]
+    · simp only [roomOf, ha, if_false]
+      rcases List.mem_cons.1 h with e | e
+      · cases e; exact absurd rfl ha
+      · exact ih e
+
+theorem roomOf_map (room : List (Sub × Nat)) (g : Sub × Nat → Nat) (u : Sub) :
+    (roomOf (room.map (fun p => (p.1, g p))) u).isSome = (roomOf room u).isSome := by
+  induction room with
+  | nil => rfl
+  | cons p room ih =>
+    obtain ⟨a, x⟩ := p
+    by_cases ha : a = u
+    · simp [roomOf, ha]
+    · simpa [roomOf, ha] using ih
+
+theorem roomOf_filter_self (room : List (Sub × Nat)) (u : Sub) :
+    roomOf (room.filter (·.1 ≠ u)) u = none := by
+  induction room with
+  | nil => rfl
+  | cons p room ih =>
+    obtain ⟨a, x⟩ := p
+    by_cases ha : a = u
+    · simpa [List.filter, ha] using ih
+    · simpa [List.filter, ha, roomOf] using ih
+
+theorem roomOf_filter_ne (room : List (Sub × Nat)) (u v : Sub) (h : v ≠ u) :
+    roomOf (room.filter (·.1 ≠ u)) v = roomOf room v := by
+  induction room with
+  | nil => rfl
+  | cons p room ih =>
+    obtain ⟨a, x⟩ := p
+    by_cases ha : a = u
+    · have hav : ¬ a = v := fun e => h (e ▸ ha)
+      rw [List.filter_cons_of_neg (by simp [ha])]
+      simp only [roomOf, hav, if_false]
+      exact ih
+    · rw [List.filter_cons_of_pos (by simp [ha])]
+      by_cases hav : a = v
+      · simp only [roomOf, hav, if_true]
+      · simp only [roomOf, hav, if_false]
+        exact ih
+
+theorem tableStep_room (f : Full) (c : State) (op : Op) (u : Sub) :
+    (roomOf (tableStep f c op).1.room u).isSome = (roomOf f.room u).isSome := by
+  unfold tableStep
+  cases op <;> simp only [Op.bcOf]
+  exact roomOf_map _ _ u
+
+theorem retag_mem (s : State) (items : List Item) (op : Op) (i : Item) (h : i ∈ retag s items op) :
+    ∃ j ∈ items, j.to = i.to ∧ j.msg = i.msg := by
+  have key : ∀ (g : Item → Item), (∀ j, (g j).to = j.to ∧ (g j).msg = j.msg) → i ∈ items.map g →
+      ∃ j ∈ items, j.to = i.to ∧ j.msg = i.msg := by
+    intro g hg hi
+    obtain ⟨j, hj, rfl⟩ := List.mem_map.1 hi
+    exact ⟨j, hj, (hg j).1.symm, (hg j).2.symm⟩
+  have same : i ∈ items → ∃ j ∈ items, j.to = i.to ∧ j.msg = i.msg := fun hi => ⟨i, hi, rfl, rfl⟩
+  cases op with
+  | register u =>
+    simp only [retag] at h
+    split at h
+    · split at h
+      · exact key _ (fun j => by split <;> exact ⟨rfl, rfl⟩) h
+      · exact same h
+    · exact same h
+  | unregister u =>
+    simp only [retag] at h
+    split at h
+    · exact key _ (fun j => by split <;> exact ⟨rfl, rfl⟩) h
+    · exact same h
+  | add st fl =>
+    simp only [retag] at h
+    split at h
+    · exact same h
+    · split at h
+      · exact key _ (fun j => by split <;> exact ⟨rfl, rfl⟩) h
+      · exact same h
+  | delete st =>
+    simp only [retag] at h
+    split at h
+    · exact key _ (fun j => by split <;> exact ⟨rfl, rfl⟩) h
+    · split at h
+      · exact key _ (fun j => by split <;> exact ⟨rfl, rfl⟩) h
+      · exact same h
+  | broadcast t sn => exact same h
+
+theorem takeIn_mem (u : Sub) (m : Msg) (r n : Nat) (k : Option Hold) (i : Item)
+    (h : i ∈ (takeIn u m r n k).2) : i.to = u ∧ i.msg = m ∧ 0 < n := by
+  have hn : 0 < n := by
+    cases n with
+    | zero => cases k <;> simp [takeIn] at h
+    | succ n => exact Nat.succ_pos n
+  unfold takeIn at h
+  simp only [List.mem_append] at h
+  rcases h with h | h
+  · obtain ⟨_, rfl⟩ := List.mem_replicate.1 h
+    exact ⟨rfl, rfl, hn⟩
+  · cases k with
+    | none => cases h
+    | some k =>
+      obtain ⟨_, rfl⟩ := List.mem_replicate.1 h
+      exact ⟨rfl, rfl, hn⟩
+
+theorem bcStalled_mem (f : Full) (u : Sub) (r : Nat) (t sn : String) (i : Item)
+    (h : i ∈ (bcStalled f u r t sn).2) :
+    i.to = u ∧ i.msg = ⟨t, f.seq⟩ ∧ 0 < incoming f u t sn := by
+  unfold bcStalled at h
+  simp only [List.mem_append] at h
+  unfold incoming
+  rcases h with (h | h) | h
+  · obtain ⟨a, b, c⟩ := takeIn_mem _ _ _ _ _ _ h
+    exact ⟨a, b, by omega⟩
+  · obtain ⟨a, b, c⟩ := takeIn_mem _ _ _ _ _ _ h
+    exact ⟨a, b, by omega⟩
+  · obtain ⟨a, b, c⟩ := takeIn_mem _ _ _ _ _ _ h
+    exact ⟨a, b, by omega⟩
+
 end Agg
